@@ -357,11 +357,7 @@ func (p *queryPlan) processClause(ctx context.Context, cls *semantic.GraphClause
 			}
 		})
 		// Data is new.
-		stmLimit := int64(0)
-		if len(p.stm.GraphPatternClauses()) == 1 && len(p.stm.GroupBy()) == 0 && len(p.stm.HavingExpression()) == 0 {
-			stmLimit = p.stm.Limit()
-		}
-		tbl, err := simpleFetch(ctx, p.grfs, cls, lo, stmLimit, p.chanSize, p.tracer)
+		tbl, err := simpleFetch(ctx, p.grfs, cls, lo, p.limitToPushDown(cls), p.chanSize, p.tracer)
 		if err != nil {
 			return true, err
 		}
@@ -386,6 +382,36 @@ func (p *queryPlan) processClause(ctx context.Context, cls *semantic.GraphClause
 		}
 	})
 	return false, p.specifyClauseWithTable(ctx, cls, lo)
+}
+
+// limitToPushDown returns the statement limit if it can be handed to the
+// driver for the given clause, and 0 otherwise. The driver cuts the stream of
+// triples before the planner sees them. That is only correct if every triple
+// retrieved becomes exactly one row of the final result in the same order: a
+// single clause, no grouping, no HAVING, no ORDER BY (the rows are sorted after
+// they are retrieved), and a clause that cannot discard a retrieved triple (no
+// predicate or object identifier to filter on, no binding that may not apply
+// to the triple, no binding used twice).
+func (p *queryPlan) limitToPushDown(cls *semantic.GraphClause) int64 {
+	if len(p.stm.GraphPatternClauses()) != 1 || len(p.stm.GroupBy()) != 0 || len(p.stm.HavingExpression()) != 0 || len(p.stm.OrderByConfig()) != 0 {
+		return 0
+	}
+	if cls.PID != "" || cls.OID != "" || cls.PAnchorBinding != "" || cls.PAnchorAlias != "" ||
+		cls.OTypeAlias != "" || cls.OIDAlias != "" || cls.OAnchorBinding != "" || cls.OAnchorAlias != "" {
+		return 0
+	}
+	n := 0
+	for _, b := range []string{cls.SBinding, cls.SAlias, cls.STypeAlias, cls.SIDAlias, cls.PBinding, cls.PAlias, cls.PIDAlias, cls.OBinding, cls.OAlias} {
+		if b != "" {
+			n++
+		}
+	}
+	if n == 0 || n != len(cls.Bindings()) {
+		// Rows without bindings are not added to the table, and a binding used
+		// twice only matches triples with equal values on both positions.
+		return 0
+	}
+	return p.stm.Limit()
 }
 
 // getBoundValueForComponent return the unique bound value if available on
@@ -468,11 +494,7 @@ func (p *queryPlan) addSpecifiedData(ctx context.Context, r table.Row, cls *sema
 		}
 	})
 
-	stmLimit := int64(0)
-	if len(p.stm.GraphPatternClauses()) == 1 && len(p.stm.GroupBy()) == 0 && len(p.stm.HavingExpression()) == 0 {
-		stmLimit = p.stm.Limit()
-	}
-	tbl, err := simpleFetch(ctx, p.grfs, cls, lo, stmLimit, p.chanSize, p.tracer)
+	tbl, err := simpleFetch(ctx, p.grfs, cls, lo, p.limitToPushDown(cls), p.chanSize, p.tracer)
 	if err != nil {
 		return err
 	}
